@@ -130,6 +130,17 @@ Theorem C10_order_irrelevant : forall (tbl tbl' : list host_entry) host,
 Proof. exact order_irrelevant. Qed.
 Print Assumptions C10_order_irrelevant.
 
+(* The lookup depends only on WHICH labels are equal: any injective relabelling f that fixes "*" (reversing the
+   characters of each label byte-wise or rune-wise, or any other encoding), applied to the table and the request,
+   leaves every answer unchanged.  So for non-ASCII hosts Go's rune reversal changes nothing by itself; the only
+   non-ASCII effects are the identifications made by Unicode ToLower (case folding beyond ASCII) and by []rune
+   conversion of invalid UTF-8 (bytes collapse to U+FFFD), which make MORE host names equal (outside the model). *)
+Theorem C10_labels_only_by_equality : forall (f : bytes -> bytes),
+  (forall a b, f a = f b -> a = b) -> f star = star ->
+  forall tbl q, tget (map f q) (build_paths (relabel f tbl)) = tget q (build_paths tbl).
+Proof. exact trie_relabel. Qed.
+Print Assumptions C10_labels_only_by_equality.
+
 (* Non-vacuity: table {Example.com -> p1, *.example.com -> p2, *.com -> p3}; see the comments in the lemma. *)
 Example C10_examples :
   lookup_product ex_tbl [] [] [101;120;97;109;112;108;101;46;67;79;77;58;56;48;56;48] None = POk [116;49] [112;49] /\
